@@ -55,6 +55,7 @@ def single_def(ctx, func, name_node):
     """The unique defining expression reaching a Name use, if it has one
     plain (untupled, non-loop) definition and is not a parameter."""
     facts, is_param = ctx.ty.facts_at(func, name_node.id, name_node)
+    facts = [fa for fa in facts if fa.kind != "add"]     # `x.append(..)` binds nothing
     if is_param or len(facts) != 1:
         return None
     fa = facts[0]
@@ -299,6 +300,81 @@ def dnf(test, pol=True, limit=64):
         out = [d for d in out if not any((t, not q) in d for t, q in d)]
         return out if len(out) <= limit else None
     return [frozenset([(text(test).replace(" ", ""), pol)])]
+
+
+def bool_dnf(ctx, func, test, pol=True, depth=0, limit=64):
+    """dnf() that also expands a boolean *variable* into what its reaching
+    definitions say: for `v = E1` under guards G1 and `v = E2` under G2 the
+    test `v` becomes (G1 and E1) or (G2 and E2).  Guards are taken relative
+    to the block of the first definition (an if/else that sets a flag)."""
+    from .cfg import guards as _guards
+    base = dnf(test, pol, limit)
+    if base is None or depth > 2 or ctx is None:
+        return base
+    out = []
+    for disj in base:
+        alts = [frozenset()]
+        for atxt, apol in disj:
+            expanded = None
+            if atxt.isidentifier():
+                node = None
+                for n in ast.walk(test):
+                    if isinstance(n, ast.Name) and n.id == atxt:
+                        node = n
+                        break
+                if node is not None and hasattr(node, "_parent"):
+                    facts, is_param = ctx.ty.facts_at(func, atxt, node)
+                    vals = [fa for fa in facts if fa.kind == "expr" and not fa.path
+                            and not isinstance(fa.stmt, ast.AugAssign)]
+                    if not is_param and vals and len(vals) == len(facts) and \
+                            all(isinstance(fa.value, (ast.BoolOp, ast.Compare, ast.UnaryOp,
+                                                      ast.Call, ast.Constant, ast.Name))
+                                for fa in vals) and (len(vals) > 1 or not isinstance(
+                                    vals[0].value, (ast.Constant,))):
+                        # common ancestor block: guards below the if that
+                        # contains all definitions
+                        anc = None
+                        if len(vals) > 1:
+                            chains = []
+                            for fa in vals:
+                                ch, n_ = [], fa.stmt
+                                while getattr(n_, "_parent", None) is not None:
+                                    n_ = n_._parent
+                                    ch.append(n_)
+                                chains.append(ch)
+                            for c_ in chains[0]:
+                                if all(c_ in ch for ch in chains[1:]) and isinstance(c_, ast.If):
+                                    anc = c_
+                                    break
+                        expanded = []
+                        for fa in vals:
+                            gs = []
+                            n_ = fa.stmt
+                            # guards between the definition and the ancestor
+                            for t_, p_ in _guards(fa.stmt, asserts=False):
+                                inside = anc is not None and any(
+                                    x is t_ for x in ast.walk(anc))
+                                if inside:
+                                    gs.append((t_, p_))
+                            part = [frozenset()]
+                            for t_, p_ in gs:
+                                d_ = dnf(t_, p_, limit)
+                                if d_ is None:
+                                    return None
+                                part = [a | b for a in part for b in d_]
+                            dv = bool_dnf(ctx, func, fa.value, apol, depth + 1, limit)
+                            if dv is None:
+                                return None
+                            expanded += [a | b for a in part for b in dv]
+            if expanded is None:
+                alts = [a | {(atxt, apol)} for a in alts]
+            else:
+                alts = [a | b for a in alts for b in expanded]
+            if len(alts) > limit:
+                return None
+        out += alts
+    out = [d for d in out if not any((t, not q) in d for t, q in d)]
+    return out if len(out) <= limit else None
 
 
 def calls(func_or_nodes, name=None, attr=None):
